@@ -511,16 +511,14 @@ func (k *KVStore) scanCommon(cursor uint64, expr string, count int, f func(e sto
 	}
 
 	if tableCursor == 0 {
-		_, ok := k.tablesByCoefficient[cf+1]
-		if !ok {
-			cf, err = k.findCoefficient(cf)
-			if err != nil {
-				// Invalid cursor
-				return 0, nil
-			}
+		// This table is done. Continue with the table that has the next coefficient, if any.
+		// The coefficients are not contiguous after tables have been dropped or recycled.
+		next, err := k.findCoefficient(cf)
+		if err != nil {
+			// There are no more tables: end of the scan.
+			return 0, nil
 		}
-		// The next table
-		return k.tableSize * (cf + 1), nil
+		return k.tableSize * next, nil
 	}
 
 	return tableCursor + (k.tableSize * cf), nil
